@@ -24,7 +24,8 @@ def templates():
   L = keras.layers
 
   def seq():
-    return keras.Sequential([keras.Input((3,)), L.Dense(4, activation="relu", name="d1"), L.Dense(3, use_bias=False, name="d2"), L.Activation("softmax", name="sm")])
+    return keras.Sequential([keras.Input((3,)), L.Dense(4, activation="relu", name="d1"), L.Dense(3, use_bias=False, name="d2"),
+                             L.Dense(3, name="d_frozen", trainable=False), L.Activation("softmax", name="sm")])
 
   def conv():
     i = keras.Input((4, 4, 2))
@@ -52,7 +53,7 @@ def templates():
     a = L.Dense(2, activation="relu", name="a")(i)
     b_ = L.Dense(2, name="b")(i)
     y = L.Add(name="add")([a, b_])
-    y = L.BatchNormalization(name="bn")(y)
+    y = L.BatchNormalization(name="bn", center=False, scale=False)(y)
     z = L.Concatenate(name="cat")([y, a])
     y = L.Dense(2, name="o")(z)
     return keras.Model(i, y)
